@@ -122,7 +122,8 @@ class StubRepo:
         for br, cid in heads.items():
             self.refs[f"refs/remotes/origin/{br}"] = self.commits[cid]
         for cid, tag in tags.items():
-            self.refs[f"refs/tags/{tag}"] = self.commits[cid]
+            for tg in ([tag] if isinstance(tag, str) else tag):           # several build tags may sit on one commit
+                self.refs[f"refs/tags/{tg}"] = self.commits[cid]
         self.remotes = {"origin": _Remote([_Ref(n[len("refs/remotes/"):], c) for n, c in sorted(self.refs.items()) if n.startswith("refs/remotes/origin/")])}
 
     def commit(self, hexsha):
